@@ -38,11 +38,6 @@ def parseRuns (s : String) : Option (List Run) :=
 def stateStr (b : SendBuf) : String :=
   s!"written={b.written} sent={b.sent} allrcvd={if b.isAllRcvd then 1 else 0} off={b.offset} max={b.maxData} size={b.state.size} runs={runsStr b.state.runs}"
 
-/-- abstraction of a dumped run list: colour of offset `x` (below the first run: released = `Recved`) -/
-def colourAt : List Run → Colour → Nat → Colour
-  | [], prev, _ => prev
-  | (o, c) :: rest, prev, x => if x < o then prev else colourAt rest c x
-
 /-- flatten the closure chain of the spec's colour function -/
 def flatten (s : SendSpec) : SendSpec :=
   let arr := ((List.range s.size).map s.colour).toArray
